@@ -205,6 +205,9 @@ func (s *swamp) PatchFields(key string, ops []msgpackpatch.Op, condition *msgpac
 	}
 	guardID := treasureObj.StartTreasureGuard(true)
 	defer treasureObj.ReleaseTreasureGuard(guardID)
+	if verifhook.Enabled {
+		verifhook.Yield("patchfields.guarded", s, key)
+	}
 
 	saved := false
 	defer func() {
